@@ -332,7 +332,7 @@ def check_csv(v):
     path = os.path.join(d, "t.csv")
     with open(path, "wb") as f:
         f.write(text)
-    buf = get_bufferclass_for_datatype(Rec, delimiter=sep, has_header=True)
+    buf = get_bufferclass_for_datatype(Rec, delimiter=sep, has_header=bool(v.get("withheader", True)))
     want = [["".join(chr(c) for c in r["name"]), r["count"], float("".join(chr(c) for c in r["score"]))] for r in rows]
     hdr = ["".join(chr(c) for c in h) for h in v["header"]]
     tags0 = {"spec": "Csv", "header": ",".join(hdr), "extra_column": "extra" in hdr, "permuted": [h for h in hdr if h != "extra"] != ["name", "count", "score"]}
@@ -370,8 +370,8 @@ def check_csv(v):
 def run(ctx):
     quick = ctx.tier == "quick"
     first = None
-    for sepc, wc in ((44, False), (9, True)) if quick else ((44, False), (9, True), (59, False), (44, True)):
-        res = ctx.tlc("MC_Csv", tag="MC_Csv_%d_%s" % (sepc, wc), spec="Spec", workers=4, constants={"Sep": sepc, "MaxRows": 2, "Headers": "<- Hdrs", "WithComment": wc},
+    for sepc, wc, wh in ((44, False, True), (9, True, True), (9, False, False)) if quick else ((44, False, True), (9, True, True), (59, False, True), (44, True, True), (9, False, False), (44, True, False)):
+        res = ctx.tlc("MC_Csv", tag="MC_Csv_%d_%s_%s" % (sepc, wc, wh), spec="Spec", workers=4, constants={"Sep": sepc, "MaxRows": 2, "Headers": "<- Hdrs", "WithComment": wc, "WithHeader": wh},
                       invariants=["ByName", "OrderIrrelevant", "Emit"], coverage=True)
         ctx.require_actions(res, "MC_Csv", ["AddRow"])
         for v in res.vectors:
